@@ -215,14 +215,17 @@ def check(ctx):
                 pb, pt = P[0]
                 ctx.check(param_name(arg(an, pb, pt, 2)) == "buf", "C05/passthrough", "C05/passthrough/read", site(b, pb),
                           reason="without a decryptor poll_read forwards %s" % render(arg(an, pb, pt, 2), maxdepth=3), detail="plain path: inner.poll_read(cx, buf)")
-            decs = calls(b, ("BlockDecryptMut::decrypt_block_mut", "decrypt_blocks_mut"))
+            DEC = ("BlockDecryptMut::decrypt_block_mut", "decrypt_blocks_mut")
+            # direct decrypt calls and those a closure performs for an iterator adaptor (receiver = captured cipher, data = the iterator)
+            decs = [(db, dt, arg(an, db, dt, 0), arg(an, db, dt, 1)) for db, dt in calls(b, DEC)]
+            for db, dt, ai, cb2, ibb, it, recv0 in closure_effects(ctx, b, DEC):
+                decs.append((db, dt, recv0 if recv0 is not None else ("unknown", "closure receiver"), arg(an, db, dt, 0 if ai != 0 else 1)))
             ctx.floor(RR, "decrypt calls", len(decs), 1, b.loc)
             if len(W) == 1 and decs:
                 wb, wt = W[0]
-                for db, dt in decs:
+                for db, dt, recv_d, src in decs:
                     ctx.check(always_before(g, wb, db), RR, "C05/read-window/decrypt-after-inner-read", site(b, db),
                               reason="bytes are decrypted before the inner read filled them", detail="decrypt dominated by the inner poll_read")
-                    src = arg(an, db, dt, 1)
                     idx = [c for c in calls_in(src, "Index::index") + calls_in(src, "IndexMut::index_mut")]
                     ok = False
                     cur_before = False
@@ -252,7 +255,7 @@ def check(ctx):
                             guards += [(blk.idx, tb) for tb, l in ls.items() if "Ready" in l]
                     ctx.check(bool(guards) and g.must_pass(db, cut_edges=guards)[0], RR, "C05/read-window/only-when-ready", site(b, db),
                               reason="decryption runs although the inner read is Pending", detail="decrypt only when the inner poll is Ready")
-                    recv = arg(an, db, dt, 0)
+                    recv = recv_d
                     ctx.check(is_persistent(recv, "decryptor"), RR, "C05/read-window/persistent-decryptor", site(b, db),
                               reason="decryption does not advance self.decryptor", detail="decrypt with the persistent decryptor")
                 r = return_expr(an)
